@@ -95,7 +95,9 @@ def check_consolidate(ctx, c):
     from ..attrprog import _d, _dup_free
 
     ctor = c["ctor"]
-    dicts = [_d(_dup_free(a["d"])) for a in ctor.get("args", [])]
+    dicts = [_d(_dup_free(a["d"]), ctx.rng.choice(["dict", "dict", "ordereddict", "userdictlike"])) for a in ctor.get("args", [])]
+    if dicts and ctx.rng.random() < 0.3:
+        dicts[0] = ht.Tag("x", dicts[0]).attrs  # a TagAttrDict taken from another tag
     kw = _d(_dup_free(ctor.get("kw", [])))
     kids = ["t", ht.span("s"), ["nested", ("tuple",)], None, 5, ht.TagList("a", "b")][: ctx.rng.randint(0, 6)]
     # interleave children and dicts
@@ -124,6 +126,10 @@ def check_consolidate(ctx, c):
             ctx.violation("consolidate-attrs-differ", "value type of %s differs" % k, wit)
             return False
     nd = [a for a in args if not isinstance(a, dict)]
+    for a in children:
+        if isinstance(a, dict):
+            ctx.violation("consolidate-children-altered", "an attribute mapping (%s) was returned among the children" % type(a).__name__, wit)
+            return False
     if len(children) != len(nd) or any(a is not b for a, b in zip(children, nd)):
         ctx.violation("consolidate-children-altered", "children returned by consolidate_attrs are not the non-dict arguments unchanged", wit)
         return False
@@ -151,7 +157,7 @@ def rand_case(rng):
     def pairs(n):
         return [[rng.choice(names), rand_value(rng)] for _ in range(n)]
 
-    args = [{"d": pairs(rng.randint(0, 4))} for _ in range(rng.randint(0, 4))]
+    args = [{"d": pairs(rng.randint(0, 4)), "as": rng.choice(["dict", "dict", "dict", "ordereddict", "userdictlike"])} for _ in range(rng.randint(0, 4))]
     kw = pairs(rng.randint(0, 5))
     ops = []
     for _ in range(rng.randint(0, 10) if rng.random() < 0.6 else 0):
